@@ -294,6 +294,10 @@ def gen_request(draw, users, objs, pnames, pols):
                     val = {"obj": oi, "d": d}
                 else:
                     val = {"lit": BASE_TIME + draw(st.integers(-3, 20))}
+                if draw(st.integers(0, 5)) == 0:
+                    # boundary dates: the epoch (0 is falsy), its neighbours, far future - open
+                    # ranges such as [0, T] ("everything up to T") or [T, far future]
+                    val = {"lit": draw(st.sampled_from([0, 0, 1, -1, 2 ** 31 - 1, 2 ** 40]))}
                 filters.append(["Initial Date", val])
             continue
         val = _target_value(draw, attr, tgt, ti) if from_target else None
